@@ -213,3 +213,11 @@ func loadImage(fr *frame, name string, root iface) value {
 	store(pt.Elem(), root.v.(*value), v)
 	return nil
 }
+
+// importImage implements zzkb.LoadLibrary(name) under gosym.
+func importImage(fr *frame, name string, t types.Type) value {
+	path := filepath.Join(fr.i.prep.KBDir, name+".json")
+	d := readImage(path)
+	im := &importer{prog: fr.i.prog, objects: d.Objects, cells: map[int]*value{}}
+	return im.imp(d.Root, t)
+}
